@@ -414,3 +414,30 @@ Proof.
       inversion Ht0. apply Z.log2_nonneg. }
     destruct (chunk_volume d t (sc_level c) _ Ht ltac:(lia) He) as [Hn _]. apply Hn.
 Qed.
+
+(* ---------- generate_scales_info.set_info_params ---------- *)
+Lemma set_info_params_consistent : forall ct ce it ie dt hb,
+  let r := set_info_params ct ce it ie dt hb in
+  let ty := fst (fst (fst r)) in let enc := snd (fst (fst r)) in
+  let dt' := snd (fst r) in let addblk := snd r in
+  enc = match ce with Some e => e | None => match ie with Some e => e | None => s_raw end end /\
+  (ct = None -> it = None -> ty = if bytes_eqb enc s_cseg then s_segmentation else s_image) /\
+  (bytes_eqb enc s_cseg = true ->
+     bytes_eqb dt' s_uint8 = false /\ bytes_eqb dt' s_uint16 = false /\ (hb = true \/ addblk = true)) /\
+  (bytes_eqb enc s_cseg = false -> dt' = dt /\ addblk = false).
+Proof.
+  intros ct ce it ie dt hb. unfold set_info_params.
+  set (enc := match ce with Some e => e | None => match ie with Some e => e | None => s_raw end end).
+  cbv zeta. destruct (bytes_eqb enc s_cseg) eqn:Ec; cbn [fst snd]; rewrite ?Ec.
+  - split; [reflexivity|]. split.
+    + intros -> ->. reflexivity.
+    + split; [|intros X; discriminate X]. intros _.
+      destruct (bytes_eqb dt s_uint8) eqn:E8; cbn [orb].
+      * repeat split; try reflexivity. destruct hb; [left|right]; reflexivity.
+      * destruct (bytes_eqb dt s_uint16) eqn:E16.
+        -- repeat split; try reflexivity. destruct hb; [left|right]; reflexivity.
+        -- repeat split; try assumption. destruct hb; [left|right]; reflexivity.
+  - split; [reflexivity|]. split.
+    + intros -> ->. reflexivity.
+    + split; [intros X; discriminate X|]. intros _. split; reflexivity.
+Qed.
